@@ -16,7 +16,7 @@ First == << <<"reverse">>, <<"complement">>, <<"rotate", "^+7">>, <<"delete", "3
             <<"search", "-e", "@atgc">>, <<"search", "@rtg">>, <<"pick", "1">>, <<"annotate", "{file:table2}">> >>
 Second == << <<"reverse">>, <<"complement">>, <<"clear">>, <<"repair">>, <<"sort">>, <<"join">>, <<"pick", "1">>, <<"select", "CDS">> >>
 All == SetToSeq({<<i, a, b>> : i \in 1..Len(Inputs), a \in 1..Len(First), b \in 1..Len(Second)})
-Picked == SelectSeq([j \in 1..Len(All) |-> j], LAMBDA j : j % Stride = Offset % Stride)
+Picked == SelectSeq([j \in 1..Len(All) |-> j], LAMBDA j : (j + (j \div Stride) + (j \div (Stride * Stride))) % Stride = Offset % Stride)
 CaseJson(j) ==
   LET x == All[j] IN
   [id |-> "pp" \o ToString(j), fam |-> "clipipe", input |-> Inputs[x[1]],
